@@ -485,6 +485,9 @@ func (w *World) groundFacts() []string {
 		c := w.tags[key]
 		if t == nil {
 			out = append(out, fmt.Sprintf("(= (kind %s) %d)", c, w.opaqueKind[key]))
+			if w.opaqueKind[key] == 22 {
+				out = append(out, fmt.Sprintf("(comparable %s)", c))
+			}
 			continue
 		}
 		out = append(out, fmt.Sprintf("(= (kind %s) %d)", c, reflectKind(t)))
